@@ -897,10 +897,9 @@ impl Arena {
 
     let header = self.header_mut();
     let allocated = header.allocated;
-    let aligned_offset = align_offset::<T>(allocated);
     let size = mem::size_of::<T>() as u32;
-    let want = aligned_offset
-      .checked_add(size)
+    let want = checked_align_offset::<T>(allocated)
+      .and_then(|aligned_offset| aligned_offset.checked_add(size))
       .and_then(|want| want.checked_add(extra))
       .filter(|want| *want <= self.cap);
 
@@ -1025,11 +1024,12 @@ impl Arena {
 
     let header = self.header_mut();
     let allocated = header.allocated;
-    let align_offset = align_offset::<T>(allocated);
     let size = t_size as u32;
-    let want = align_offset + size;
+    let want = checked_align_offset::<T>(allocated)
+      .and_then(|aligned_offset| aligned_offset.checked_add(size))
+      .filter(|want| *want <= self.cap);
 
-    if want <= self.cap {
+    if let Some(want) = want {
       let offset = header.allocated;
       header.allocated = want;
       let mut allocated = Meta::new(self.ptr as _, offset, want - offset);
@@ -1049,7 +1049,7 @@ impl Arena {
     // allocate through slow path
     match self.freelist {
       Freelist::None => Err(Error::InsufficientSpace {
-        requested: want,
+        requested: size,
         available: self.remaining() as u32,
       }),
       Freelist::Optimistic => match self.alloc_slow_path_optimistic(Self::pad::<T>() as u32) {
@@ -1299,7 +1299,10 @@ impl Arena {
       return false;
     }
 
-    let aligned_offset = align_offset::<u64>(offset) as usize;
+    let Some(aligned_offset) = checked_align_offset::<u64>(offset) else {
+      return false;
+    };
+    let aligned_offset = aligned_offset as usize;
     let padding = aligned_offset - offset as usize;
     let segmented_node_size = padding + SEGMENT_NODE_SIZE;
     if segmented_node_size >= size as usize {
@@ -1320,7 +1323,11 @@ impl Arena {
       return None;
     }
 
-    let aligned_offset = align_offset::<u64>(offset) as usize;
+    let Some(aligned_offset) = checked_align_offset::<u64>(offset) else {
+      self.increase_discarded(size);
+      return None;
+    };
+    let aligned_offset = aligned_offset as usize;
     let padding = aligned_offset - offset as usize;
     let segmented_node_size = padding + SEGMENT_NODE_SIZE;
     if segmented_node_size >= size as usize {
